@@ -314,3 +314,150 @@ theorem readFile_notFound {fs : FS} {k : Key} (h : fs.readFile k = .error .notFo
     · assumption
 
 end RQ.FS
+
+/-! ### `save_rej_files` and `ENOTDIR` (`World.opRej`)
+
+`saveRejFiles_cons` splits the loop body of `saveRejFiles` by the test `fileOnPath k` on the file system the
+entry is met on: if a regular file is on the way, both operations are issued, fail with `ENOTDIR` (or with the
+injected fault, which stays an error) and the entry is bypassed; otherwise the body is the plain one in terms of
+`World.op`. -/
+namespace RQ.Push
+open RQ
+
+theorem opRej_of_clear {w : World} {k : Key} (hp : w.fs.fileOnPath k = false) (o : Op) : w.opRej o k = w.op o := by
+  unfold World.opRej World.notDir
+  rw [hp]
+  cases w.op o <;> rfl
+
+theorem fileOnPath_erase (fs : FS) (k : Key) : (fs.erase k).fileOnPath k = fs.fileOnPath k := by
+  have hne : ∀ i, i < k.length → k.take i ≠ k := by
+    intro i hlt h
+    have := congrArg List.length h
+    rw [List.length_take] at this
+    omega
+  unfold FS.fileOnPath
+  rw [Bool.eq_iff_iff]
+  simp only [List.any_eq_true, List.mem_range]
+  constructor
+  · rintro ⟨i, hi, h⟩
+    refine ⟨i, hi, ?_⟩
+    rw [FS.lookup_erase_ne fs k _ (hne i hi)] at h
+    exact h
+  · rintro ⟨i, hi, h⟩
+    refine ⟨i, hi, ?_⟩
+    rw [FS.lookup_erase_ne fs k _ (hne i hi)]
+    exact h
+
+theorem op_removeFile_ok_fileOnPath {w w0 : World} {k : Key} (e : w.op (.removeFile k) = .ok w0) :
+    w0.fs.fileOnPath k = w.fs.fileOnPath k := by
+  unfold World.op at e
+  simp only at e
+  split at e
+  · cases e
+  · split at e
+    · rename_i fs' h
+      cases e
+      simp only
+      rw [FS.removeFile_ok h, fileOnPath_erase]
+    · cases e
+    · cases e
+
+theorem op_notFound_fs {w w0 : World} {o : Op} (e : w.op o = .notFound w0) : w0.fs = w.fs := by
+  unfold World.op at e
+  simp only at e
+  split at e
+  · cases e
+  · split at e
+    · cases e
+    · cases e; rfl
+    · cases e
+
+/-- the world after an operation that changed nothing but the trace -/
+def World.logged (w : World) (o : Op) : World := { w with trace := w.trace ++ [o] }
+
+@[simp] theorem World.logged_fs (w : World) (o : Op) : (w.logged o).fs = w.fs := rfl
+@[simp] theorem World.logged_faultAt (w : World) (o : Op) : (w.logged o).faultAt = w.faultAt := rfl
+@[simp] theorem World.logged_trace (w : World) (o : Op) : (w.logged o).trace = w.trace ++ [o] := rfl
+
+theorem removeFile_of_fileOnPath {fs : FS} {k : Key} (hp : fs.fileOnPath k = true) :
+    fs.removeFile k = .error .other := by
+  unfold FS.removeFile; rw [if_pos hp]
+
+theorem createFile_of_fileOnPath {fs : FS} {k : Key} (hp : fs.fileOnPath k = true) :
+    fs.createFile k = .error .other := by
+  unfold FS.createFile
+  split
+  · rfl
+  · rfl
+
+/-- the two operations of `save_rej_files` on a path that leads through a regular file -/
+theorem opRej_blocked {w : World} {k : Key} (hp : w.fs.fileOnPath k = true) {o : Op}
+    (ho : o = .removeFile k ∨ o = .createFile k) :
+    w.opRej o k = if w.faultAt == some w.trace.length then .failed (w.logged o) else .notFound (w.logged o) := by
+  unfold World.opRej World.notDir World.op
+  rw [hp]
+  by_cases hf : (w.faultAt == some w.trace.length) = true
+  · simp only [hf, if_true]
+    rfl
+  · simp only [hf]
+    rcases ho with rfl | rfl
+    · simp only [removeFile_of_fileOnPath hp]; rfl
+    · simp only [createFile_of_fileOnPath hp]; rfl
+
+/-- **the loop body of `saveRejFiles`**, split by `fileOnPath k`: bypassed (both operations logged) or the plain
+body in terms of `World.op` -/
+theorem saveRejFiles_cons (w : World) (name content : Bytes) (rest : List (Bytes × Bytes)) :
+    saveRejFiles w ((name, content) :: rest) =
+    match safeKey name with
+    | none => .error (.err, w)
+    | some k =>
+      if w.fs.fileOnPath k then
+        if w.faultAt == some w.trace.length then .error (.err, w.logged (.removeFile k))
+        else if w.faultAt == some (w.trace.length + 1) then
+          .error (.err, (w.logged (.removeFile k)).logged (.createFile k))
+        else saveRejFiles ((w.logged (.removeFile k)).logged (.createFile k)) rest
+      else
+        match w.op (.removeFile k) with
+        | .failed w0 => .error (.err, w0)
+        | .ok w0 | .notFound w0 =>
+          match w0.op (.createFile k) with
+          | .notFound w' => saveRejFiles w' rest
+          | .failed w' => .error (.err, w')
+          | .ok w' =>
+            match w'.op (.write k content) with
+            | .ok w'' => saveRejFiles w'' rest
+            | .notFound w'' | .failed w'' => .error (.err, w'') := by
+  rw [saveRejFiles]
+  cases hk : safeKey name with
+  | none => rfl
+  | some k =>
+    simp only
+    by_cases hp : w.fs.fileOnPath k = true
+    · rw [if_pos hp, opRej_blocked hp (.inl rfl)]
+      by_cases hf : (w.faultAt == some w.trace.length) = true
+      · simp only [hf, if_true]
+      · have hf' : (w.faultAt == some w.trace.length) = false := by simpa using hf
+        rw [hf']
+        simp only [Bool.false_eq_true, if_false]
+        have hp1 : (w.logged (.removeFile k)).fs.fileOnPath k = true := hp
+        rw [opRej_blocked hp1 (.inr rfl)]
+        simp only [World.logged_faultAt, World.logged_trace, List.length_append, List.length_singleton]
+        by_cases hf2 : (w.faultAt == some (w.trace.length + 1)) = true
+        · simp only [hf2, if_true]
+        · have hf2' : (w.faultAt == some (w.trace.length + 1)) = false := by simpa using hf2
+          rw [hf2']
+          simp only [Bool.false_eq_true, if_false]
+    · have hp' : w.fs.fileOnPath k = false := by simpa using hp
+      rw [if_neg hp, opRej_of_clear hp']
+      cases hop : w.op (.removeFile k) with
+      | failed w0 => rfl
+      | ok w0 =>
+        simp only
+        rw [opRej_of_clear (by rw [op_removeFile_ok_fileOnPath hop]; exact hp')]
+        rfl
+      | notFound w0 =>
+        simp only
+        rw [opRej_of_clear (by rw [op_notFound_fs hop]; exact hp')]
+        rfl
+
+end RQ.Push
